@@ -284,7 +284,14 @@ def eval_case(case: dict) -> dict:
                         else:
                             cnt['textual_claim_comparison_not_recognised'] = 1
                 # (3) compile a sample against distinct types
-                if case.get('compile') and compiled < 2 and rng.random() < 0.3:
+                # an out/inout parameter re-pointed to an extern declared as a C++ reference is no
+                # model `dzn code` could compile either (const T& &): not type-checked
+                compilable = True
+                if site['site'] == 'formal-type' and unique_right and \
+                        hits[0][2].data.strip().endswith('&'):
+                    ev_c = gen2.interface_by_fqn(site['itf']).events[site['event_index']]
+                    compilable = ev_c.formals[site['formal_index']].direction == 'in'
+                if case.get('compile') and compilable and compiled < 2 and rng.random() < 0.3:
                     compiled += 1
                     work = os.path.join(case['scratch'], f'c07_{case["stream"]}_{compiled}')
                     info2 = cfggen.comp_info(gen2, ent2)
